@@ -114,7 +114,7 @@ pub fn check_views(r: &espada::hand_range::HandRange, m: &RangeMap, fp: u64) -> 
     }
     Ok(Outcome::new(almost || !complete.is_empty(), fp, cls))
 }
-pub const CLASSES: &[&str] = &["all_present_one_weight_differs", "exactly_one_combo_missing", "has_complete_rank_pair", "has_leftovers", "signed_zero_weights"];
+pub const CLASSES: &[&str] = &["all_present_one_weight_differs", "exactly_one_combo_missing", "has_complete_rank_pair", "has_leftovers", "signed_zero_weights", "history_around_256_calls", "history_around_65536_calls"];
 
 /// like diff_maps, but weights are compared with f32 equality (+0.0 == -0.0: "the same weight")
 fn diff_maps_eq(want: &RangeMap, got: &RangeMap) -> Option<String> {
@@ -174,6 +174,60 @@ pub fn check_pattern(c: &PatternCase) -> CheckResult {
     check_range(&r)
 }
 
+// ---------------------------------------------------------------------------------------------
+// long call histories on one thread
+
+/// A complete rank pair is queried once; then follow `fillers` queries of ranges that do not touch
+/// it; then `probes` queries of the same rank pair with one combo missing.  Every probe must see an
+/// incomplete pair - whatever was looked at 255, 256, 65,535 or 65,536 queries earlier on this
+/// thread (generation counters of per-thread scratch tables wrap there).
+#[derive(Clone, Debug, Serialize, Deserialize)]
+pub struct HistoryCase {
+    pub cell: Cell,
+    pub drop: u8,
+    pub w: f32,
+    pub fillers: u32,
+    pub probes: u32,
+    pub filler_kind: u8,
+}
+
+pub fn check_history(c: &HistoryCase) -> CheckResult {
+    vensure!(c.w.is_finite() && c.w >= 0.0 && c.fillers <= 200_000 && c.probes <= 200, "bad-case", "history outside the domain");
+    let combos = c.cell.combos();
+    let x: RangeMap = combos.iter().map(|p| (*p, c.w)).collect();
+    let rx = to_espada(&x);
+    check_views(&rx, &x, 1)?;
+    let cells = all_cells();
+    let me = cells.iter().position(|k| *k == c.cell).unwrap_or(0);
+    let other = cells[(me + 1 + c.filler_kind as usize % 167) % 169];
+    let fillers: Vec<espada::hand_range::HandRange> = vec![
+        to_espada(&RangeMap::new()),
+        to_espada(&other.combos().iter().map(|p| (*p, 0.5f32)).collect()),
+        to_espada(&other.combos().iter().take(1).map(|p| (*p, c.w)).collect()),
+    ];
+    let mut y = x.clone();
+    let dropped = combos[c.drop as usize % combos.len()];
+    y.remove(&dropped);
+    let ry = to_espada(&y);
+    for i in 0..c.fillers {
+        let f = &fillers[(i as usize + c.filler_kind as usize) % fillers.len()];
+        std::hint::black_box(f.rank_pairs().len());
+    }
+    for k in 0..c.probes {
+        check_views(&ry, &y, 2).map_err(|mut f| {
+            f.what = format!("{} [history on one thread: {} queried complete, {} queries of ranges that do not touch it, then probe {} of the same rank pair without {}]", f.what, c.cell.name(), c.fillers, k + 1, pname(dropped));
+            f.sig = format!("history:{}", f.sig);
+            f
+        })?;
+    }
+    let cls = if c.fillers >= 60_000 { 64 } else { 32 };
+    Ok(Outcome::new(true, fp_of(&format!("{:?}", c)), cls))
+}
+
+pub fn history_strategy() -> impl Strategy<Value = HistoryCase> {
+    (0usize..169, any::<u8>(), prop_oneof![Just(1.0f32), Just(0.5f32), weight_any()], prop_oneof![Just(230u32), Just(65_500u32)], 0u32..16, any::<u8>()).prop_map(|(ci, drop, w, base, off, filler_kind)| HistoryCase { cell: all_cells()[ci], drop, w, fillers: base + off, probes: 48, filler_kind })
+}
+
 fn background(seed: u64) -> Vec<(u8, u8, f32)> {
     // a few complete neighbours and stray combos, deterministic
     let mut m = RangeMap::new();
@@ -198,7 +252,7 @@ fn background(seed: u64) -> Vec<(u8, u8, f32)> {
 }
 
 pub fn run(ctx: &mut Ctx) {
-    ctx.rule = "(1) exhaustive inside one rank pair: every absent/weight-a/weight-b pattern of its combos - all 3^6 x 13 pockets, all 3^4 x 78 suited, all 3^12 = 531,441 x (quick 6, thorough all 78) offsuit rank pairs - embedded in a seeded background of neighbouring complete rank pairs and stray combos; the pocket/suited patterns again with the two weights +0.0 / -0.0; (2) proptest offsuit patterns biased to 'all but one present' and 'one weight differs' over all 78 offsuit pairs; (3) C06's row-pattern ranges with partial cells and arbitrary weights; (4) ranges obtained by parsing every well-formed token alone (either rank / card order) and generated token lists. Oracle: rank_pairs() == the model's complete cells (both directions, weight bit-equal, high card first), orphan_card_pairs() == model leftovers, every combo covered exactly once by the two views. Non-trivial = some rank pair complete or almost complete (all present with one differing weight, or exactly one combo missing); distinct by range contents.".into();
+    ctx.rule = "(1) exhaustive inside one rank pair: every absent/weight-a/weight-b pattern of its combos - all 3^6 x 13 pockets, all 3^4 x 78 suited, all 3^12 = 531,441 x (quick 6, thorough all 78) offsuit rank pairs - embedded in a seeded background of neighbouring complete rank pairs and stray combos; the pocket/suited patterns again with the two weights +0.0 / -0.0; (2) proptest offsuit patterns biased to 'all but one present' and 'one weight differs' over all 78 offsuit pairs; (3) C06's row-pattern ranges with partial cells and arbitrary weights; (4) ranges obtained by parsing every well-formed token alone (either rank / card order) and generated token lists. (5) long histories on one thread: a rank pair queried complete, then 230-245 or 65,500-65,515 queries of unrelated ranges, then 48 queries of the same pair with one combo missing (each query is a rank_pairs() and an orphan_card_pairs() call), covering the wrap points of 8- and 16-bit call counters. Oracle: rank_pairs() == the model's complete cells (both directions, weight bit-equal, high card first), orphan_card_pairs() == model leftovers, every combo covered exactly once by the two views. Non-trivial = some rank pair complete or almost complete (all present with one differing weight, or exactly one combo missing); distinct by range contents.".into();
     ctx.assumptions = vec!["entries made of one card twice (possible through FromIterator) are legal keys: they belong to no rank pair and stay among the leftovers".into(), "weights finite, >= 0, not NaN (NaN != NaN would make 'same weight' meaningless); -0.0 is a legal weight here and is the same weight as +0.0 (f32 equality), so reported weights are compared with ==".into()];
     let cells = all_cells();
     // pockets and suited: all patterns
@@ -285,6 +339,9 @@ pub fn run(ctx: &mut Ctx) {
     ctx.run_enum_brief(StreamCfg::new("parsed_single_tokens", CLASSES, n), n, true, |i| toks[i as usize].text(), check_parsed, |t| json!(t));
     let cases = ctx.tier.pick(3_000, 40_000);
     ctx.run_random_brief(StreamCfg::new("parsed_token_lists", CLASSES, cases).shrink(200), || crate::props::c05::list_strategy(8).prop_map(|l| crate::props::c05::list_text(&l)), check_parsed, |t| json!(t));
+    // long histories on one thread (wrap points of 8- and 16-bit generation counters)
+    let cases = ctx.tier.pick(48, 1_200);
+    ctx.run_random_brief(StreamCfg::new("long_thread_histories", CLASSES, cases).shrink(20), history_strategy, check_history, |c| json!({"cell": c.cell.name(), "fillers": c.fillers, "probes": c.probes}));
     ctx.extra.insert("exhaustive_over".into(), json!(format!("all 3^6 patterns x 13 pockets, all 3^4 x 78 suited, all 3^12 x {} offsuit rank pairs ({})", chosen.len(), chosen.iter().map(|c| c.name()).collect::<Vec<_>>().join(","))));
     if ctx.tier == Tier::Thorough && !ctx.failed() {
         crate::fuzzrun::campaign(ctx, "fz_range", 1000, 16, 400);
@@ -295,6 +352,7 @@ pub fn replay(stream: &str, path: &str, case: &Value) -> i32 {
     match stream {
         "row_pattern_ranges" => replay_case::<RangeCase>("C12", path, case, check_range),
         "parsed_single_tokens" | "parsed_token_lists" => replay_case::<String>("C12", path, case, check_parsed),
+        "long_thread_histories" => replay_case::<HistoryCase>("C12", path, case, check_history),
         _ => replay_case::<PatternCase>("C12", path, case, check_pattern),
     }
 }
